@@ -10,4 +10,4 @@ git -C /repo worktree add -q --detach "$wt" HEAD || exit 2
 cleanup() { git -C /repo worktree remove --force "$wt" 2>/dev/null; rm -rf "$wt"; git -C /repo worktree prune; }
 trap cleanup EXIT
 if ! git -C "$wt" apply "$patch"; then echo "PATCH DOES NOT APPLY: $patch"; exit 3; fi
-VERIF_REPO="$wt" "$@"
+VERIF_REPO="$wt" VERIF_NO_EVIDENCE=1 "$@"
